@@ -20,7 +20,8 @@ type Case struct {
 	Type         byte   `json:"type"`          // message type byte
 	Pos          string `json:"pos"`           // first | between | in-batch | during-copy | password | startup
 	Segs         []int  `json:"segs,omitempty"`
-	TLS          bool   `json:"tls,omitempty"` // the session runs inside TLS (the limit applies to the messages, not to the transport)
+	SSLFirst     bool   `json:"ssl_first,omitempty"` // a refused SSLRequest precedes the start-up packet
+	TLS          bool   `json:"tls,omitempty"`       // the session runs inside TLS (the limit applies to the messages, not to the transport)
 }
 
 const defaultLimit = 1 << 24
@@ -118,6 +119,13 @@ func (c Case) session(limitSetting int) sessOut {
 		ps := env.NewSess()
 		if c.Segs != nil {
 			ps.C.SetSegments(c.Segs, true)
+		}
+		if c.SSLFirst {
+			// the client first asks for TLS and is refused ('N'): the limit of the session that follows on
+			// the same connection is the configured one
+			ps.C.Send(pgwire.SSLRequest())
+			ps.C.WaitIdle(script.Guard)
+			ps.SkipByte()
 		}
 		s = ps
 	}
@@ -278,7 +286,9 @@ func Run(c Case) core.Result {
 	}
 	if c.Size <= L {
 		// differential: identical to a server whose limit is far above every size of the case
-		ref := c.session(refLimit) // (same transport: plaintext or TLS)
+		rc := c
+		rc.SSLFirst = false         // (the reference session is not preceded by a refused SSLRequest)
+		ref := rc.session(refLimit) // (same transport: plaintext or TLS)
 		if ref.inc != "" {
 			res.Inconclusive = ref.inc
 			return res
